@@ -15,10 +15,27 @@ def case(ctx, idx, res):
     env = sanitizer_env(flavour)
     env['ASAN_OPTIONS'] = env.get('ASAN_OPTIONS', '').replace('detect_leaks=0', 'detect_leaks=1')
     cmd = [exe_path(flavour, 'xvcont'), str(ctx.seed), str(start), str(count), str(maxops)]
-    try:
-        p = subprocess.run(cmd, env=env, stdout=subprocess.PIPE, stderr=subprocess.PIPE, timeout=3600)
-    except subprocess.TimeoutExpired:
-        res.inconclusive.append('timeout')
+    # a block takes seconds; one that does not end is run a second time with four times the budget (the rule of the framework for time-outs)
+    # and then counts: a comparison that failed before the stall names the container, otherwise the block is reported as a hang
+    for budget in ((120, 480) if ctx.tier == 'quick' else (300, 1200)):
+        try:
+            p = subprocess.run(cmd, env=env, stdout=subprocess.PIPE, stderr=subprocess.PIPE, timeout=budget)
+            break
+        except subprocess.TimeoutExpired as e:
+            partial = (e.stdout or b'').decode('utf-8', 'replace')
+            p = None
+            if 'FAILING seq=' in partial:
+                break           # the failed comparison is the verdict; no need to wait for the stall a second time
+    if p is None:
+        res.evals = 1
+        m = re.findall(r'FAILING seq=(\d+) kind=(\S+) op=(\d+) : (.*)', partial)
+        if m:
+            seq, kind, op, what = m[-1]
+            norm = re.sub(r'\d+', 'N', re.sub(r"'[^']*'", "'..'", what))
+            res.viol('mismatch|%s|%s' % (kind, norm), '%s: %s (seq %s op %s), and the sequence never ends afterwards' % (kind, what, seq, op),
+                     {'flavour': flavour, 'cmd': ' '.join(cmd[:2] + [seq, '1', str(maxops)]), 'seq': int(seq), 'kind': kind})
+        else:
+            res.viol('hang|block', 'a block of sequences does not end within %d s, twice (it takes seconds)' % budget, {'flavour': flavour, 'cmd': ' '.join(cmd)})
         return
     out = p.stdout.decode('utf-8', 'replace')
     err = p.stderr.decode('utf-8', 'replace')
